@@ -50,7 +50,8 @@ func server(t interface{ Fatalf(string, ...any) }) *sut.Proc {
 	if proc != nil && proc.Alive() {
 		return proc
 	}
-	p, err := sut.StartProc(sut.ProcOpts{AOFSync: "no"})
+	// (an eviction policy with an unreachable limit: the background expiry sampler only runs under a policy)
+	p, err := sut.StartProc(sut.ProcOpts{AOFSync: "no", Policy: "allkeys-lru", MaxMemory: 1 << 40, EvictionInterval: 3})
 	if err != nil {
 		t.Fatalf("HARNESS-ERROR: %v", err)
 	}
@@ -64,12 +65,12 @@ func genScripts(t *rapid.T) scripts {
 	var s scripts
 	s.Background = rapid.IntRange(0, 2).Draw(t, "bg") > 0
 	s.Restart = rapid.IntRange(0, 2).Draw(t, "restart") == 0
-	focus := rapid.IntRange(0, 8).Draw(t, "focus") // bias the whole case towards one family so that contention is high
+	focus := rapid.IntRange(0, 9).Draw(t, "focus") // bias the whole case towards one family so that contention is high
 	for c := 0; c < nc; c++ {
 		n := rapid.IntRange(20, 150).Draw(t, "nops")
 		var ops []cop
 		for i := 0; i < n; i++ {
-			kind := rapid.IntRange(0, 8).Draw(t, "kind")
+			kind := rapid.IntRange(0, 9).Draw(t, "kind")
 			if rapid.IntRange(0, 2).Draw(t, "usefocus") > 0 {
 				kind = focus
 			}
@@ -98,6 +99,19 @@ func genScripts(t *rapid.T) scripts {
 					ops = append(ops, cop{[]string{"MGET", "p1", "p2"}})
 				} else {
 					ops = append(ops, cop{[]string{"MSET", "p1", id, "p2", id}})
+				}
+			case 9:
+				// keys private to this client that expire within a millisecond and are written again without an
+				// expiry while the background expiry sampler runs every few milliseconds: a value written without
+				// an expiry must stay
+				ek := fmt.Sprintf("e%d-%d", c, rapid.IntRange(0, 29).Draw(t, "ek"))
+				switch rapid.IntRange(0, 3).Draw(t, "churn") {
+				case 0:
+					ops = append(ops, cop{[]string{"SET", ek, "volatile", "PX", "1"}})
+				case 1:
+					ops = append(ops, cop{[]string{"SET", ek, "fresh-" + id}})
+				default:
+					ops = append(ops, cop{[]string{"GET", ek}})
 				}
 			default:
 				if rapid.IntRange(0, 1).Draw(t, "mv") == 0 {
@@ -188,8 +202,26 @@ func runCase(t *rapid.T, replay *scripts) {
 			}
 			c.Timeout = 15 * time.Second
 			defer c.Close()
+			private := map[string]string{} // key -> value last written without an expiry ("" = may be absent)
 			for _, o := range ops {
 				r := c.Do(o.Cmd...)
+				if len(o.Cmd) >= 2 && strings.HasPrefix(o.Cmd[1], "e") && (o.Cmd[0] == "SET" || o.Cmd[0] == "GET") && !r.Val.IsErr() {
+					switch {
+					case o.Cmd[0] == "SET" && len(o.Cmd) == 3:
+						private[o.Cmd[1]] = o.Cmd[2]
+					case o.Cmd[0] == "SET":
+						private[o.Cmd[1]] = ""
+					default:
+						if want := private[o.Cmd[1]]; want != "" {
+							if got, _ := r.Val.Text(); got != want {
+								tl.mu.Lock()
+								tl.torn = append(tl.torn, fmt.Sprintf("client %d wrote %s = %q without an expiry (acknowledged) and nobody else writes that key; a later GET answers %s", ci, o.Cmd[1], want, r.String()))
+								tl.mu.Unlock()
+							}
+						}
+					}
+					continue
+				}
 				if r.ParseErr != "" && !r.Strict {
 					tl.mu.Lock()
 					tl.malformed = append(tl.malformed, fmt.Sprintf("%q -> %q (%s)", o.Cmd, trunc(string(r.Raw), 60), r.ParseErr))
